@@ -291,6 +291,9 @@ impl RK23 {
                             k1.copy_from_slice(&k4);
                         }
                     }
+                } else {
+                    // No callback installed: k4 is still the derivative at the new point.
+                    k1.copy_from_slice(&k4);
                 }
 
                 // Adjust step size
